@@ -9,7 +9,10 @@ CONSTANTS
  HeadBug = FALSE
  EqLockstep = FALSE
  AllowSharedRehash = FALSE
+ Sizes = {}
+ ZeroBins = FALSE
+ SelfAssignClears = FALSE
 VIEW View
 ACTION_CONSTRAINT Emit
-INVARIANTS Refines LengthOK ChainsOK LookupOK SharingOK EqualOK GhostOK
+INVARIANTS BinsOK Refines LengthOK ChainsOK LookupOK SharingOK EqualOK GhostOK
 CHECK_DEADLOCK FALSE
